@@ -270,6 +270,15 @@ def main(payload):
             continue
         lam, g, e, nu, k, m = [float(getattr(s, n)) for n in NAMES]
         res = {'moduli': [lam, g, e, nu, k, m]}
+        try:
+            fields_of(s, c, res, lam, g, m)
+        except Exception as ex:
+            res['run_error'] = type(ex).__name__ + ': ' + str(ex)[:200]
+        out.append(res)
+    return out
+
+def fields_of(s, c, res, lam, g, m):
+    if True:
         a, rho0, ps = float(s.cavity_radius), float(s.ref_density), float(s.pressure_scale)
         cl = (m / rho0) ** 0.5
         t = c['tfac'] * a / cl
@@ -303,8 +312,6 @@ def main(payload):
               np.max(np.abs(np.asarray(sol['stress_diff']) - np.abs(srr - sqq))) / ps,
               np.max(np.abs(np.asarray(sol['density']) - rho0 / (1 + err + 2 * eqq))) / rho0]
         res['hooke_res'] = float(max(hk))
-        out.append(res)
-    return out
 '''
 
 
@@ -326,6 +333,9 @@ def oracle(rng, tier, reasons):
         i, j = c['pair']
         given = [c['kwargs'][NAMES[i]], c['kwargs'][NAMES[j]]]
         why = []
+        if 'run_error' in r:
+            bad.append({'input': p, 'real': r, 'what': 'solver raised on an accepted material: ' + r['run_error']})
+            continue
         if not (abs(r['moduli'][i] - given[0]) <= 1e-12 * abs(given[0]) and abs(r['moduli'][j] - given[1]) <= 1e-12 * abs(given[1])):
             why.append('the given values are not reproduced')
         if not (g > 0 and 3 * lam + 2 * g > 0):
